@@ -25,7 +25,7 @@ var rVerbDispatch = &Rule{
 type boolEnv struct {
 	info  *types.Info
 	atoms func(e ast.Expr) (string, bool) // recognise an atomic proposition
-	subst map[types.Object]ast.Expr      // single-assignment local booleans
+	subst map[types.Object]ast.Expr       // single-assignment local booleans
 	val   map[string]bool
 	verb  rune
 	unk   []string
